@@ -21,7 +21,7 @@ def main():
     ap.add_argument("--seed", type=int, default=int(os.environ.get("VERIF_SEED") or "1"))
     ap.add_argument("--replay", default=None)
     args = ap.parse_args()
-    ev = os.path.join(HERE, "evidence", args.prop + ".json")
+    ev = os.path.join(os.environ.get("VERIF_OUT") or HERE, "evidence", args.prop + ".json")
     if os.path.exists(ev):
         os.unlink(ev)
     mod = importlib.import_module("vlib.props." + args.prop.lower())
